@@ -98,7 +98,7 @@ func FinishVoid(fns ...func()) {
 // ForEach 加工所有生成的元素，但并不输出。
 func ForEach(generate GenerateFunc, mapper ForEachFunc, opts ...Option) {
 	options := buildOptions(opts...)
-	panicChan := &onceChan{channel: make(chan any)}
+	panicChan := &onceChan{channel: make(chan any, 1)}
 	source := buildSource(generate, panicChan)
 	collector := make(chan any)
 	done := make(chan lang.PlaceholderType)
@@ -141,14 +141,14 @@ func MapReduceVoid(generate GenerateFunc, mapper MapperFunc, reducer VoidReducer
 
 // MapReduce 加工所有生成的元素，并聚合后输出。
 func MapReduce(generate GenerateFunc, mapper MapperFunc, reducer ReducerFunc, opts ...Option) (any, error) {
-	panicChan := &onceChan{channel: make(chan any)}
+	panicChan := &onceChan{channel: make(chan any, 1)}
 	source := buildSource(generate, panicChan)
 	return mapReduceWithPanicChan(source, panicChan, mapper, reducer, opts...)
 }
 
 // MapReduceChan 加工所有给定的源数据，并聚合输出。
 func MapReduceChan(source <-chan any, mapper MapperFunc, reducer ReducerFunc, opts ...Option) (any, error) {
-	panicChan := &onceChan{channel: make(chan any)}
+	panicChan := &onceChan{channel: make(chan any, 1)}
 	return mapReduceWithPanicChan(source, panicChan, mapper, reducer, opts...)
 }
 
